@@ -21,7 +21,16 @@ import Hv.Misc.RequestLemmas
 namespace Hv.C26
 open Hv.Request
 
-def EnginesAnswer (h : Handler) (sh : Shape) : Prop := ∀ e ∈ entriesOf h sh, e.engine ≠ .panics
+/-- **The unproved part, made explicit.**  Below the validation prefix the engine is a parameter of the model.
+    What is *known* about it from the code (engine facts: it panics on a negative paging offset unless the beacon
+    clamps it; `SummonSwamp` creates the swamp a reader names; the V2 writer refuses keys it cannot encode) is part
+    of the programs as `need` steps and is decided by the checker like any other guard.  What remains is this
+    assumption: apart from those cases the engine answers (possibly with an error) instead of panicking.  It is an
+    hypothesis of `defined`, never discharged in Lean; the correspondence run *tests* it on every generated request
+    (an engine panic shows up as a recovered panic and fails the check). -/
+def EngineSafe (h : Handler) (sh : Shape) : Prop := ∀ e ∈ entriesOf h sh, e.engine ≠ .panics
+
+abbrev EnginesAnswer := EngineSafe
 def EnginesOk (h : Handler) (sh : Shape) : Prop := ∀ e ∈ entriesOf h sh, e.engine = .ok
 
 /-- The statement, relative to assumptions `A` on the request (atoms assumed false on every entry). -/
@@ -176,9 +185,9 @@ theorem legacy_counters_balanced :
 theorem refutes_legacy : ¬ Holds legacyCfg :=
   not_holds_of_violates legacyCfg legacyCount (List.mem_cons_self ..) { entries := [{ nameParts := 1 }] } (by decide)
 
-/-- the fragment excluded by the two defects: names with exactly three non-empty parts and
-    no non-nil empty key list -/
-def A0 : Known := [.nameInvalid, .keysEmptyNN]
+/-- the fragment excluded by the defects seen so far: names with exactly three non-empty parts, no non-nil
+    empty key list, and — for the engine hazards — existing swamps, non-negative offsets, storable keys -/
+def A0 : Known := [.nameInvalid, .keysEmptyNN, .notExist, .fromNeg, .keyInvalid]
 
 /-- `_partial`: on that fragment the legacy gateway satisfies the whole statement. -/
 theorem legacy_partial : HoldsUnder A0 legacyCfg := holdsUnder_of_check legacyCfg A0 (by decide)
@@ -187,7 +196,7 @@ theorem legacy_partial : HoldsUnder A0 legacyCfg := holdsUnder_of_check legacyCf
 example : Assumed A0 ({} : Entry) := by
   intro a ha _ cx
   simp only [A0, List.mem_cons, List.mem_nil_iff, or_false] at ha
-  rcases ha with rfl | rfl <;> rfl
+  rcases ha with rfl | rfl | rfl | rfl | rfl <;> rfl
 
 /-- … and the witnesses above do not. -/
 example : ¬ Assumed A0 ({ nameParts := 1 } : Entry) := by
@@ -224,6 +233,13 @@ theorem recoverFirst_balanced (cfg : Cfg) (h : Handler)
 
 /-! ### The repaired gateway -/
 
+def fixedCfgBase : Cfg :=
+  { loadChecksLen := false, handlers := [],
+    checkName := [ .guard (.atom .nameEmpty) (.reject .invalidArgument "SwampName_cannot_be_empty"),
+                   .guard (.atom .nameInvalid) (.reject .invalidArgument "SwampName_must_have_exactly"),
+                   .load,
+                   .guard (.atom .notExistChk) (.reject .failedPrecondition "Swamp_does_not_exist") ] }
+
 def fixedCheckName : List Step :=
   [ .guard (.atom .nameEmpty) (.reject .invalidArgument "SwampName_cannot_be_empty"),
     .guard (.atom .nameInvalid) (.reject .invalidArgument "SwampName_must_have_exactly"),
@@ -250,6 +266,44 @@ theorem holds_fixed : Holds fixedCfg := holds_of_check fixedCfg (by decide)
 
 example : (exec fixedCfg legacyCount { entries := [{ nameParts := 1 }] }).out =
     .grpcError .invalidArgument "SwampName_must_have_exactly" := by decide
+
+/-! ### Engine facts: what the engine below the prefix is known to mishandle
+
+  The extractor puts a `need a tag` step in front of the engine call whenever the code below is known to mishandle
+  requests on which `a` is true: `fromNeg` while `swamp.GetTreasuresByBeacon` does not clamp a negative offset (it
+  panics on `treasuresByOrder[start+from]`), `notExist` in a handler that does not write (`SummonSwamp` creates the
+  swamp it is asked for), `keyInvalid` in a handler that creates treasures while the V2 writer refuses such keys (the
+  acknowledged record is gone after the flush).  The checker accepts the program only when a guard excludes `a`. -/
+
+def sizeUnchecked : Handler :=
+  { name := "Uint32SliceSize", defers := luh,
+    main := [.guard (.atom .nameEmpty) (.reject .invalidArgument "SwampName_cannot_be_empty"),
+             .checkName .no .propagate, .need .notExist "missingswamp", .body] }
+
+/-- `Uint32SliceSize` on a well-formed name of a swamp that does not exist: the reader enters `SummonSwamp`. -/
+theorem reader_creates_swamp_witness :
+    (exec { fixedCfgBase with handlers := [sizeUnchecked] } sizeUnchecked { top := { exist := false } }).out
+      = .engineHazard "missingswamp" := by decide
+
+def byIndexUnclamped : Handler :=
+  { name := "GetByIndex", defers := luh, main := [.checkName .yes .propagate, .need .fromNeg "negfrom", .need .notExist "missingswamp", .body] }
+
+/-- `GetByIndex` with `From = -1` while the beacon does not clamp it. -/
+theorem negative_from_witness :
+    (exec { fixedCfgBase with handlers := [byIndexUnclamped] } byIndexUnclamped { top := { fromNeg := true } }).out
+      = .engineHazard "negfrom" := by decide
+
+def setUnvalidated : Handler :=
+  { legacySet with main := [.load, .need .keyInvalid "badkey", .body] }
+
+/-- `Set` with an empty or over-long key and no key guard: acknowledged, then refused by the writer. -/
+theorem unstorable_key_witness :
+    (exec { fixedCfgBase with handlers := [setUnvalidated] } setUnvalidated { entries := [{ keyBad := true }] }).out
+      = .engineHazard "badkey" := by decide
+
+/-- with the existence check in place the same reader passes the checker (non-vacuity of the `need` rule) -/
+example : checkH { fixedCfgBase with handlers := [] } []
+    { sizeUnchecked with main := [.checkName .yes .propagate, .need .notExist "missingswamp", .body] } = true := by decide
 
 /-! ### Decision over the extracted facts -/
 
